@@ -133,6 +133,7 @@ def handle (cmd : String) (fs : List String) : String :=
     | .unpickle f => "unpickle:" ++ encodeStr f
     | .helpExit => "exit:0"
     | .usageError => "exit:2"
+  | "enceq", [a, b] => boolStr (decide (reprList (decList a) = reprList (decList b)))
   | "testcmd", [w, p, a, e] => encList (testCmd (decList w) (decList p) (decList a) (decList e))
   | "nshesc", [s] => encodeStr (ninjaShellEscape (decodeStr s))
   | _, _ => "bad-op"
